@@ -84,6 +84,16 @@ def Sig.matches (env : Env) (s : Sig) (c : Str) : Bool :=
 def matched (env : Env) (sigs : List Sig) (c : Str) : List Sig :=
   sigs.filter (fun s => s.matches env c)
 
+/-- same function, lowering the content once instead of once per signature; the driver runs this version
+    (`@[csimp]`: a kernel-checked equality, used by the compiler only) -/
+def matchedFast (env : Env) (sigs : List Sig) (c : Str) : List Sig :=
+  (fun cl => sigs.filter (fun s => if s.isRegex then env.rx s.pat c else isInfix (lowerS env s.pat) cl))
+    (lowerS env c)
+
+@[csimp] theorem matched_eq_matchedFast : @matched = @matchedFast := by
+  funext env sigs c
+  rfl
+
 /-- the running maximum of the scan loop: `if sig.level > max_level: max_level = sig.level` -/
 def maxFrom (m : Nat) : List Sig → Nat
   | [] => m
@@ -99,6 +109,6 @@ def rxCalls (sigs : List Sig) : List Str :=
 inductive Out (α : Type) where
   | ok (v : α)
   | raise (cls : String)
-  deriving Repr
+  deriving Repr, DecidableEq
 
 end Operon.Gates
